@@ -46,7 +46,10 @@ impl Acc {
     pub fn viol(&mut self, msg: String, case: Value) {
         let label = case.get("action").and_then(|x| x.as_str()).or_else(|| case.get("class").and_then(|x| x.as_str())).unwrap_or("-").to_string();
         let e = self.classes.entry(label).or_insert_with(|| (0, String::new()));
-        if e.0 == 0 {
+        if e.0 < 12 && std::env::var("VERIF_TRIAGE").is_ok() {
+            e.1.push_str("\n        ");
+            e.1.push_str(&msg.chars().take(260).collect::<String>());
+        } else if e.0 == 0 {
             e.1 = msg.chars().take(300).collect();
         }
         e.0 += 1;
@@ -163,6 +166,13 @@ impl Run {
         // violations
         let rdir = format!("{}/replays", self.verif_dir);
         let _ = std::fs::create_dir_all(&rdir);
+        if let Ok(rd) = std::fs::read_dir(&rdir) {
+            for f in rd.flatten() {
+                if f.file_name().to_string_lossy().starts_with(&format!("{}-", self.prop)) {
+                    let _ = std::fs::remove_file(f.path());
+                }
+            }
+        }
         for (i, v) in acc.viols.iter().enumerate() {
             let mut case = v.case.clone();
             if let Value::Object(m) = &mut case {
